@@ -35,7 +35,7 @@ pub fn method_safe(id: &str) -> bool {
 
 /// Spelling stems, pairwise distinct under ASCII case folding.
 pub const STEMS: &[&str] = &[
-    "red", "Green", "BLUE", "dark black", "rebecca-purple", "b", "Q", "yellow", "lime", "Fuchsia", "x1", "42", "007",
+    "", "red", "Green", "BLUE", "dark black", "rebecca-purple", "b", "Q", "yellow", "lime", "Fuchsia", "x1", "42", "007",
     "-", "+", "!", "a.b", "über", "ÜBER", "Größe", "GRÖSSE", "İstanbul", "日本", "🦀", "naïve", "ſtop", "K\u{212A}",
     "tab\there", " lead", "trail ", "in  ner", "q\"uote", "back\\slash", "new\nline", "mixedCase", "Mi", "kelvin", "ski",
     "mass", "Ok", "none", "DEFAULT", "snake_name", "kebab-name", "Title Name", "CamelName", "HTTP", "http2", "v", "W",
